@@ -67,6 +67,14 @@ pub fn replay_case<H: HB>(c: &Case) -> Result<(), String> {
             return crate::post::from_iter_differential::<H>(c.double, &c.universe, seq, true).map(|_| ()).map_err(|e| e.1);
         }
     }
+    if c.probe.as_deref() == Some("extend-twin") {
+        if let Root::FromVec(pairs) = &c.root {
+            return crate::props::replay_extend_twin(c.double, pairs);
+        }
+    }
+    if c.probe.as_deref() == Some("drop-accounting-plain-priorities") {
+        return crate::probes::drop_accounting_plain().map(|_| ());
+    }
     if c.probe.as_deref() == Some("big-equality-hashers") {
         if let Root::FromVec(pairs) = &c.root {
             return if c.double {
